@@ -3,6 +3,7 @@ package main
 import (
 	"fmt"
 	"go/ast"
+	"go/constant"
 	"go/token"
 	"go/types"
 	"strings"
@@ -730,6 +731,20 @@ func (ex *Exec) doPanic(st *State, n ast.Node) {
 		return
 	}
 	f0 := ex.frames[0]
+	if f0.fn != nil && f0.fn.Con != nil && len(f0.fn.Con.MayPanic) > 0 {
+		if call, ok := n.(*ast.CallExpr); ok && len(call.Args) == 1 {
+			if tv, ok := ex.info().Types[call.Args[0]]; ok && tv.Value != nil && tv.Value.Kind() == constant.String {
+				msg := constant.StringVal(tv.Value)
+				for _, m := range f0.fn.Con.MayPanic {
+					if m == msg {
+						ex.note("declared refusal by panic: " + msg)
+						st.dead = true
+						return
+					}
+				}
+			}
+		}
+	}
 	if f0.fn != nil && f0.fn.Con != nil && len(f0.fn.Con.PanicsWhen) > 0 {
 		// declared refusal: the panic must be covered by a `panics when` clause (over entry values)
 		var cs []*Term
